@@ -67,12 +67,35 @@ def is_harness_loc(loc):
     return c.startswith("src/") or "/harness/src/" in loc or c.startswith("/verif")
 
 
+_PATHS = {}
+
+
+def bin_path(kind):
+    """binary paths are resolved once per process tree (main resolves them before forking):
+    building takes the global build lock, which other checks may hold for minutes"""
+    p = _PATHS.get(kind)
+    if p is None and os.environ.get("C05_SKIP_BUILD"):
+        # development only: use whatever is already built (no cargo, no build lock)
+        p = {"cli": os.path.join(build.TARGET, "cli", "debug", "jaq"), "cli_release": os.path.join(build.TARGET, "cli", "release", "jaq")}.get(
+            kind, os.path.join(build.TARGET, kind, "jaqmon"))
+        _PATHS[kind] = p
+    if p is None:
+        if kind == "cli":
+            p = build.cli()
+        elif kind == "cli_release":
+            p = build.cli_release()
+        else:
+            p = build.jaqmon(kind)
+        _PATHS[kind] = p
+    return p
+
+
 class Mon(Jaqmon):
     """Jaqmon whose stderr goes to a file (natives may write to stderr; a pipe would fill up),
     with the streamed `evalc` protocol."""
 
     def __init__(self, profile="verif", mem_gb=4, stack_mb=512):
-        super().__init__(profile, (), mem_gb=mem_gb, stack_mb=stack_mb)
+        super().__init__(profile, (), mem_gb=mem_gb, stack_mb=stack_mb, path=bin_path(profile))
         self.profile = profile
         fd, self.errpath = tempfile.mkstemp(prefix="c05-stderr-")
         os.close(fd)
@@ -95,6 +118,7 @@ class Mon(Jaqmon):
         self.p = subprocess.Popen([self.path, "serve"], stdin=subprocess.PIPE, stdout=subprocess.PIPE,
                                   stderr=self.errf, env=env, preexec_fn=pre)
         self._buf = b""
+        self.fresh = True       # the first answer of a new process may take long on a loaded machine
 
     def stop(self):
         if self.p is not None:
@@ -134,7 +158,10 @@ class Mon(Jaqmon):
             pass
 
     def _recv(self, timeout):
+        if getattr(self, "fresh", False):
+            timeout += 30
         line = self._readline(timeout)
+        self.fresh = False
         if line is None:
             self.stop()
             self.restarts += 1
@@ -169,14 +196,18 @@ class Mon(Jaqmon):
         self._send(obj)
         return self._recv(timeout)
 
-    def evalc(self, prog, cases, vars=(), take=4, stream=(), chunk=32, timeout=5.0, death_budget=12, stop_on_death=False):
+    def evalc(self, prog, cases, vars=(), take=4, stream=(), chunk=32, timeout=5.0, death_budget=12, stop_on_death=False, max_seconds=None):
         """-> dict(status, codes(list of 1-char codes; 'D' = worker died on that case, 'S' = skipped),
         panics{idx:(msg,loc)}, deaths{idx:class}, report?)"""
         n = len(cases)
         out = {"status": "ok", "codes": [None] * n, "panics": {}, "deaths": {}}
         start = 0
         ndeaths = 0
+        t_begin = time.monotonic()
+        trace = [] if os.environ.get("C05_TRACE") else None
         while True:
+            if trace is not None:
+                trace.append(("send", start, chunk, round(time.monotonic() - t_begin, 2)))
             self._send({"op": "evalc", "prog": prog, "vars": [[a, b] for a, b in vars], "take": take,
                         "stream": list(stream), "chunk": chunk, "cases": cases[start:]})
             done_upto = start
@@ -190,8 +221,21 @@ class Mon(Jaqmon):
                         for k, msg, loc in r["panics"]:
                             out["panics"][start + k] = (msg, loc)
                         done_upto = k0 + len(r["c"])
+                        if max_seconds is not None and time.monotonic() - t_begin > max_seconds and done_upto < n:
+                            # wall-clock guard: the rest of the batch is not run (inconclusive, never a verdict)
+                            self.stop()
+                            for k in range(done_upto, n):
+                                out["codes"][k] = "S"
+                            out["time_guard"] = n - done_upto
+                            if trace is not None:
+                                with open("/tmp/c05-trace.log", "a") as f:
+                                    f.write(json.dumps({"prog": prog[:80], "n": n, "guard_at": done_upto, "dt": round(time.monotonic() - t_begin, 2), "trace": trace[:30]}) + "\n")
+                            return out
                         continue
                     if "done" in r:
+                        if trace is not None and time.monotonic() - t_begin > 5:
+                            with open("/tmp/c05-trace.log", "a") as f:
+                                f.write(json.dumps({"prog": prog[:80], "n": n, "dt": round(time.monotonic() - t_begin, 2), "trace": trace[:30]}) + "\n")
                         return out
                     if "compile_error" in r:
                         out["status"] = "compile_error"
@@ -206,6 +250,8 @@ class Mon(Jaqmon):
                     return out
             except WorkerDied as e:
                 cls = classify_death(e)
+                if trace is not None:
+                    trace.append(("died", cls, done_upto, round(time.monotonic() - t_begin, 2)))
                 if n == 0 or done_upto >= n:
                     # died while compiling (or after the last case, while dropping)
                     out["status"] = "compile_death"
@@ -327,7 +373,7 @@ def cli_env(home):
 def run_cli_case(case, timeout=20.0):
     """case: {k:'cli', bin:'debug'|'release', args:[...], stdin_hex:..., files:{name:hex}}; `@F:name`
     in args is replaced by the path of that scratch file."""
-    exe = build.cli() if case.get("bin", "debug") == "debug" else build.cli_release()
+    exe = bin_path("cli") if case.get("bin", "debug") == "debug" else bin_path("cli_release")
     d = tempfile.mkdtemp(prefix="c05-cli-")
     try:
         for name, hx in (case.get("files") or {}).items():
